@@ -602,7 +602,7 @@ func supervised(child string, args []string, what string) {
 	if err != nil {
 		common.Fatalf("read: %v", err)
 	}
-	results := common.Supervise(child, nil, lines, 120*time.Second, 14)
+	results := common.SuperviseRetry(child, nil, lines, 120*time.Second, 14)
 	for i := range results {
 		r := &results[i]
 		if !r.OK && (r.Key == "crash" || r.Key == "hang") {
